@@ -148,7 +148,7 @@ WriteModuleHead(m, inproj) ==
   \o <<C("SFIN", Enc32(m.fin)), C("SREL", Enc32(m.rel))>>
   \o (IF inproj THEN <<C("SXXX", Enc32(m.x)), C("SYYY", Enc32(m.y)), C("SZZZ", Enc32(m.layer))>> ELSE <<>>)
   \o <<C("SSCL", EncL32(m.scale))>>
-  \o (IF inproj THEN <<C("SVPR", Enc32(m.vis))>> ELSE <<>>)
+  \o (IF inproj THEN <<C("SVPR", EncL32(m.vis))>> ELSE <<>>)
   \o <<C("SCOL", m.color), C("SMII", Enc32(MidiIn(m)))>>
   \o (IF m.moname \in {<<>>, << <<>> >>} THEN <<>> ELSE <<C("SMIN", CStr(m.moname[1]))>>)
   \o <<C("SMIC", Enc32(m.moch)), C("SMIB", Enc32(m.mobank)), C("SMIP", Enc32(m.moprog))>>
@@ -208,7 +208,7 @@ DefaultCmid == <<0, 0, 0, 0>>
 DefaultOpts(t) == IF t \in SpecTypes THEN [i \in 1..Len(Opts(t)) |-> <<Opts(t)[i].name, Opts(t)[i].default>>] ELSE <<>>
 BaseModule(mtype, name, flags) ==
   [kind |-> "module", mtype |-> mtype, name |-> name, flags |-> flags, fin |-> 0, rel |-> 0, x |-> 512, y |-> 512, layer |-> 0,
-   scale |-> <<256, 0>>, vis |-> 786689, color |-> <<255, 255, 255>>, midi_in_always |-> 0, midi_in_channel |-> 0,
+   scale |-> <<256, 0>>, vis |-> <<257, 12>>, color |-> <<255, 255, 255>>, midi_in_always |-> 0, midi_in_channel |-> 0,
    moname |-> None, moch |-> 0, mobank |-> -1, moprog |-> -1, inl |-> <<>>, ins |-> <<>>, outl |-> <<>>, outs |-> <<>>,
    ctl |-> IF mtype \in SpecTypes THEN [i \in 1..Len(Ctls(mtype)) |-> Ctls(mtype)[i].default] ELSE <<>>,
    cmid |-> IF mtype \in SpecTypes THEN [i \in 1..Len(Ctls(mtype)) |-> DefaultCmid] ELSE <<>>,
@@ -453,7 +453,7 @@ ProcModule(s, c) == LET id == c.id  d == c.data IN
     [] id = "SYYY" -> [s EXCEPT !.mod.y = DecI32(d)]
     [] id = "SZZZ" -> [s EXCEPT !.mod.layer = DecI32(d)]
     [] id = "SSCL" -> [s EXCEPT !.mod.scale = DecL32(d)]
-    [] id = "SVPR" -> [s EXCEPT !.mod.vis = DecI32(d)]
+    [] id = "SVPR" -> [s EXCEPT !.mod.vis = DecL32(d)]
     [] id = "SCOL" -> [s EXCEPT !.mod.color = d]
     [] id = "SMII" -> [s EXCEPT !.mod.midi_in_always = d[1] % 2, !.mod.midi_in_channel = DecI32(d) \div 2]
     [] id = "SMIN" -> [s EXCEPT !.mod.moname = Some(Cut0(d))]
@@ -534,7 +534,7 @@ NormModule(m, inproj) ==
                      !.inl = StripT(@), !.ins = StripT(@), !.outl = StripT(@), !.outs = StripT(@),
                      !.payload = NormPayload(m)]
   IN IF inproj THEN a
-     ELSE [a EXCEPT !.x = 512, !.y = 512, !.layer = 0, !.vis = 786689,        \* not stored in a .sunsynth
+     ELSE [a EXCEPT !.x = 512, !.y = 512, !.layer = 0, !.vis = <<257, 12>>,        \* not stored in a .sunsynth
                     !.inl = <<>>, !.ins = <<>>, !.outl = <<>>, !.outs = <<>>]
 NormObj(o) ==
   IF o.kind = "project" THEN [o EXCEPT !.modules = LET ms == DropTrailingNone(@) IN [i \in 1..Len(ms) |-> NormModule(ms[i], TRUE)]]
